@@ -1,8 +1,9 @@
 Require Extraction.
 Require Import ExtrOcamlBasic.
-From Herc Require Import Base.Conv Burndown.Base Burndown.Dense Burndown.Lifetimes Burndown.Analysis Burndown.Replay Burndown.Linear Burndown.PlanProofs.
+From Herc Require Import Base.Conv Burndown.Base Burndown.Dense Burndown.Lifetimes Burndown.Analysis Burndown.Replay Burndown.Linear Burndown.PlanProofs Burndown.PathDel.
 Extraction "c01_model.ml" conv_anchor
   conflict_free single_head has_line ancs last_event
   truth_project truth_file truth_dev truth_ownership paths_with_lines lines_at_head truth_cell keep_all
   group_sparse_history group_sparse_history_old spec_cell
-  run_hist master finalize plan_okb master_all changes_of mkCfg linear_rows_ok nonneg_matrix has_text count_lines merge_freeb.
+  run_hist master finalize plan_okb master_all changes_of mkCfg linear_rows_ok nonneg_matrix has_text count_lines merge_freeb
+  conflict_free_pd pd_okb run_hist_pd changes_of_pd.
